@@ -15,6 +15,10 @@ Fails(c) ==
           (IF c.tamper_check = 1 /\ c.tamper_raised = 0 THEN {"union_accepted_differing_shared_part"} ELSE {})
           \cup (IF c.tamper_check = 0 /\ c.tamper_raised = 1 THEN {"union_refused_without_check"} ELSE {}))
   \cup (IF c.clean_raised = 1 THEN {"union_refused_equal_shared_part"} ELSE {})
+  \* the same calls on the same tables with the metadata of a random subset of rows removed: row for row the same result, each row
+  \* with the metadata (or none) of the row it came from
+  \cup (IF c.ragged_subset_ok = 1 THEN {} ELSE {"subset_with_ragged_metadata"})
+  \cup (IF c.ragged_union_ok = 1 THEN {} ELSE {"union_with_ragged_metadata"})
 Init == k = 0
 Next == k < Len(Cases) /\ k' = k + 1
 Spec == Init /\ [][Next]_k
